@@ -2596,7 +2596,7 @@ impl Prop for P {
         v.push(Plan::new("mmapvec_u64", n / 2, b(n / 2), vec_case(<MmapVec<u64> as VecApi<u64>>::kinds(), big, l / 2, caps_small())));
         v.push(Plan::new("mmapvec_u8", n / 2, b(n / 2), vec_case(<MmapVec<u8> as VecApi<u8>>::kinds(), q(200, 600), l / 2, caps_small())));
         v.push(Plan::new("fastvec_copy_shorter", q(60, 400), b(q(60, 400)), (2usize..40, 1usize..40).prop_map(|(n, m)| Case::CopyShorter { n, m })));
-        for nn in [1usize, 2, 4, 16] {
+        for nn in [1usize, 2, 3, 4, 5, 6, 7, 12, 16] {
             v.push(Plan::new(
                 &format!("fixedq_n{nn}"),
                 n / 2,
@@ -2654,7 +2654,12 @@ impl Prop for P {
             ("fastvec_copy_shorter", Case::CopyShorter { n, m }) => run_copy_shorter(ctx, n, m),
             ("fixedq_n1", Case::Queue { ops, .. }) => run_fixedq::<1>(ctx, &ops),
             ("fixedq_n2", Case::Queue { ops, .. }) => run_fixedq::<2>(ctx, &ops),
+            ("fixedq_n3", Case::Queue { ops, .. }) => run_fixedq::<3>(ctx, &ops),
             ("fixedq_n4", Case::Queue { ops, .. }) => run_fixedq::<4>(ctx, &ops),
+            ("fixedq_n5", Case::Queue { ops, .. }) => run_fixedq::<5>(ctx, &ops),
+            ("fixedq_n6", Case::Queue { ops, .. }) => run_fixedq::<6>(ctx, &ops),
+            ("fixedq_n7", Case::Queue { ops, .. }) => run_fixedq::<7>(ctx, &ops),
+            ("fixedq_n12", Case::Queue { ops, .. }) => run_fixedq::<12>(ctx, &ops),
             ("fixedq_n16", Case::Queue { ops, .. }) => run_fixedq::<16>(ctx, &ops),
             ("autoq_tracked", Case::Queue { cap, ops }) => run_autoq::<Tracked>(ctx, cap, &ops),
             ("autoq_u64", Case::Queue { cap, ops }) => run_autoq::<u64>(ctx, cap, &ops),
